@@ -360,6 +360,36 @@ def unit_imports(_):
     return part
 
 
+UNICODE_NAMES = ['gr\u00f6\u00dfe', 'pa\u0442', 'd\u00e9j\u00e0_x', '\u03c9', 'na\u00efve1', '\u53d8\u91cfx', 'x_\u00e9', '_\u00e9']
+UNICODE_TEMPLATES = ['{v} = 1\nprint({v})\n', '{v} = 1\nzz = [0,{v}]\n', 'import os\nos.{v}\n', 'class K:\n    {v} = 1\nK.{v}\n', 'from m1 import {v}\n',
+                     'import {v}\n', 'def f({v}=1):\n    return {v}\n', '{v} = 1\nif not {v}:\n    pass\n', 'zz = 1\nzz.{v}\n', 'import pk.{v}\n', 'from pk.{v} import s1\n',
+                     'if 1: from m1 import {v}\n', '{v} = 1\nzz = "{v}"\n', '{v} = 1\n\t\n# {v}\n']
+
+
+def unicode_cases():
+    """identifiers with non-ASCII letters (PEP 3131): a cursor after every character of the last occurrence"""
+    for v in UNICODE_NAMES:
+        for tmpl in UNICODE_TEMPLATES:
+            text = tmpl.replace('{v}', v)
+            at = text.rindex(v)
+            ln = text.count('\n', 0, at) + 1
+            col0 = at - (text.rfind('\n', 0, at) + 1)
+            for k in range(1, len(v) + 1):
+                yield '%s|%d' % (tmpl.split('\n')[-2], k), text, (ln, col0 + k)
+
+
+def unit_unicode(_):
+    part = Part()
+    for label, text, pos in unicode_cases():
+        part.count('evaluations')
+        part.count('unicode_cursors')
+        r, vs = contract(text, pos, nc.FILE, 'non-ASCII identifier ' + label, part)
+        for sig, what in vs:
+            part.violation(sig + ':unicode', what + '\n--- source ---\n' + text, {'kind': 'cursor1', 'text': text, 'pos': list(pos), 'ctx': 'unicode'})
+    part.outcome('unicode')
+    return part
+
+
 def unit_file(arg):
     path, every, chunk, nchunks = arg
     part = Part()
@@ -387,7 +417,8 @@ def replay(w):
             exp = import_reference(w['text'], tuple(w['pos']), nc.FILE)
             if exp is not None and list(r[1]) != exp:
                 vs = vs + [('import-proposals-differ', 'proposals differ')]
-        return [(s + (':import-ctx' if w['ctx'] == 'import' else ':ctx-' + w['ctx']), wh) for s, wh in vs]
+        suffix = {'import': ':import-ctx', 'unicode': ':unicode'}.get(w['ctx'], ':ctx-' + w['ctx'])
+        return [(s + suffix, wh) for s, wh in vs]
     return [(s + w.get('suffix', ''), wh) for s, wh, _ in check_text(w['text'], w['fn'], w['label'], p)]
 
 
@@ -397,6 +428,7 @@ def run(ctx):
     step = 25
     units = [(unit_progs, (ctx.tier, lo, min(len(sp), lo + step))) for lo in range(0, len(sp), step)]
     units.append((unit_imports, None))
+    units.append((unit_unicode, None))
     repo = sorted(corpus.repo_files(), key=os.path.getsize)
     repo = [f for f in repo if not f.endswith('umsgpack.py')]
     for i, f in enumerate(repo):
